@@ -41,6 +41,7 @@ def run(ctx):
     malsec.shuffle_order(ctx, facts, "ORDER-shuffle")
     malsec.hash_guards(ctx, facts, "GUARD-shuffle-hash")
     malsec.shuffle_verify_path(ctx, facts, "PATH-shuffle-verify")
+    malsec.hash_cover(ctx, facts)       # comparing hashes checks exactly what the hash absorbs
     malsec.malicious_reveal_guard(ctx, facts, "GUARD-reveal")
     malsec.mac_validate_guard(ctx, facts, "GUARD-mac")
     malsec.padding_guard(ctx, facts, "GUARD-padding")
